@@ -1,12 +1,1478 @@
-//! C04 — not built yet (stub).
+//! C04 — Only headers obeying height, time, version, difficulty and PoW rules pass.
+//!
+//! Part A: real-PoW AutomatedTesting header chains; every single-field mutation of
+//!         one header through process_block_header / sync_block_headers / process_block.
+//! Part B: consensus::next_difficulty against a u128 reference on all chain types/eras.
+//! Part C: read-time policy of UntrustedBlockHeader.
 
 use crate::engine::*;
-use serde_json::Value;
+use crate::refmmr::{self, RefMmr};
+use crate::world::*;
+use crate::{ensure, fail};
+use chrono::{DateTime, Duration, Utc};
+use grin_chain::types::{Options, Tip};
+use grin_core::consensus::{self, HeaderDifficultyInfo};
+use grin_core::core::hash::{Hash, Hashed};
+use grin_core::core::{Block, BlockHeader, HeaderVersion, UntrustedBlockHeader};
+use grin_core::global::{self, ChainTypes};
+use grin_core::pow::{self, Difficulty};
+use grin_core::ser::{self, DeserializationMode, ProtocolVersion};
+use grin_util::ToHex;
+use proptest::prelude::*;
+use serde_derive::{Deserialize, Serialize};
+use serde_json::{json, Value};
+use std::collections::BTreeMap;
+use std::sync::Mutex;
 
-pub fn run(_ctx: &Ctx) -> HResult<()> {
-	Err(HarnessError("C04 check not built yet".into()))
+// =====================================================================
+// Reference model. All constants are written out here from the protocol
+// documentation, none is imported from grin.
+// =====================================================================
+
+#[derive(Clone, Copy, Debug, PartialEq, Eq, Hash, Serialize, Deserialize)]
+pub enum Ct {
+	AutomatedTesting,
+	UserTesting,
+	Testnet,
+	Mainnet,
 }
 
-pub fn replay(_ctx: &Ctx, _part: &str, _case: &Value) -> PResult {
+impl Ct {
+	fn grin(self) -> ChainTypes {
+		match self {
+			Ct::AutomatedTesting => ChainTypes::AutomatedTesting,
+			Ct::UserTesting => ChainTypes::UserTesting,
+			Ct::Testnet => ChainTypes::Testnet,
+			Ct::Mainnet => ChainTypes::Mainnet,
+		}
+	}
+	fn from_idx(i: u8) -> Ct {
+		match i % 4 {
+			0 => Ct::AutomatedTesting,
+			1 => Ct::UserTesting,
+			2 => Ct::Testnet,
+			_ => Ct::Mainnet,
+		}
+	}
+}
+
+/// one block per minute, 60 per hour, 1440 per day, 10080 per week, 52 weeks per "year"
+const R_YEAR: u64 = 52 * 7 * 24 * 60;
+/// scheduled hard forks every half "year" on mainnet
+const R_HF: u64 = R_YEAR / 2;
+const R_WINDOW: usize = 60;
+const R_BLOCK_SEC: u128 = 60;
+const R_WINDOW_SEC: u128 = 3600;
+const R_MIN_DMA: u128 = 3;
+const R_MIN_AR_SCALE: u128 = 13;
+const R_HALF_LIFE: u128 = 4 * 3600;
+
+/// first height of header versions 1..=5
+fn ref_era_starts(ct: Ct) -> [u64; 5] {
+	match ct {
+		Ct::Mainnet => [0, R_HF, 2 * R_HF, 3 * R_HF, 4 * R_HF],
+		Ct::Testnet => [0, 185_040, 298_080, 552_960, 642_240],
+		Ct::AutomatedTesting | Ct::UserTesting => [0, 3, 6, 9, 12],
+	}
+}
+
+/// first height at which 1 + height/3 no longer fits 16 bits
+const R_WRAP_TESTING: u64 = 3 * 65_535;
+
+/// true when grin's schedule computation truncates its interval count to 16 bits at this height
+fn schedule_wraps(ct: Ct, height: u64) -> bool {
+	match ct {
+		Ct::AutomatedTesting | Ct::UserTesting => 1 + height / 3 > 65_535,
+		Ct::Mainnet => 1 + height / R_HF > 65_535,
+		Ct::Testnet => false,
+	}
+}
+
+fn ref_version(ct: Ct, height: u64) -> u16 {
+	ref_era_starts(ct).iter().filter(|&&s| s <= height).count() as u16
+}
+
+/// graph weight 2^(bits - base + 1) * bits of the smallest allowed graph
+fn ref_min_wtema(ct: Ct) -> u128 {
+	match ct {
+		Ct::Mainnet => 512 * 32,
+		Ct::Testnet => 64 * 29,
+		Ct::AutomatedTesting => 2 * 10,
+		Ct::UserTesting => 2 * 15,
+	}
+}
+
+fn ref_initial_scaling(ct: Ct) -> u32 {
+	match ct {
+		Ct::Mainnet | Ct::Testnet => 64 * 29,
+		Ct::AutomatedTesting => 2 * 10,
+		Ct::UserTesting => 2 * 15,
+	}
+}
+
+/// one header as the retarget sees it
+#[derive(Clone, Copy, Debug, PartialEq, Eq, Serialize, Deserialize)]
+pub struct Entry {
+	pub ts: u64,
+	pub diff: u64,
+	pub scaling: u32,
+	pub sec: bool,
+}
+
+#[derive(Clone, Debug, Default)]
+pub struct RefOut {
+	pub diff: u128,
+	pub scaling: u128,
+	pub dma: bool,
+	/// DMA diagnostics
+	pub diff_sum: u128,
+	pub ts_delta: u128,
+	pub adj_ts: u128,
+	pub padded: usize,
+}
+
+fn r_damp(actual: u128, goal: u128, f: u128) -> u128 {
+	(actual + (f - 1) * goal) / f
+}
+
+fn r_clamp(actual: u128, goal: u128, f: u128) -> u128 {
+	std::cmp::max(goal / f, std::cmp::min(actual, goal * f))
+}
+
+/// Retarget reference, `w` newest first.
+pub fn ref_next(ct: Ct, height: u64, w: &[Entry]) -> RefOut {
+	if ref_version(ct, height) < 5 {
+		// damped moving average over the last 60 blocks (61 timestamps)
+		let mut v: Vec<Entry> = w.iter().take(R_WINDOW + 1).cloned().collect();
+		let n = v.len();
+		if n < R_WINDOW + 1 {
+			// simulated pre-genesis blocks "with values from the previous real block"
+			let delta = if n > 1 { v[0].ts - v[1].ts } else { 60 };
+			let d0 = v[0].diff;
+			let mut ts = v[n - 1].ts;
+			for _ in n..R_WINDOW + 1 {
+				ts = ts.saturating_sub(delta);
+				v.push(Entry {
+					ts,
+					diff: d0,
+					scaling: ref_initial_scaling(ct),
+					sec: true,
+				});
+			}
+		}
+		let ts_delta = (v[0].ts as u128) - (v[R_WINDOW].ts as u128);
+		let diff_sum: u128 = v[..R_WINDOW].iter().map(|e| e.diff as u128).sum();
+		let adj_ts = r_clamp(r_damp(ts_delta, R_WINDOW_SEC, 3), R_WINDOW_SEC, 2);
+		let diff = std::cmp::max(R_MIN_DMA, diff_sum * R_BLOCK_SEC / adj_ts);
+		// secondary scaling
+		let scale_sum: u128 = v[..R_WINDOW].iter().map(|e| e.scaling as u128).sum();
+		let pct = 90u64.saturating_sub(height / (2 * R_YEAR / 90)) as u128;
+		let target = R_WINDOW as u128 * pct;
+		let ar = 100 * v[..R_WINDOW].iter().filter(|e| e.sec).count() as u128;
+		let adj_c = r_clamp(r_damp(ar, target, 13), target, 2);
+		let scale = scale_sum * pct / std::cmp::max(1, adj_c);
+		RefOut {
+			diff,
+			scaling: std::cmp::max(R_MIN_AR_SCALE, scale),
+			dma: true,
+			diff_sum,
+			ts_delta,
+			adj_ts,
+			padded: R_WINDOW + 1 - n,
+		}
+	} else {
+		let t = (w[0].ts as u128) - (w[1].ts as u128);
+		let next = (w[0].diff as u128) * R_HALF_LIFE / (R_HALF_LIFE - R_BLOCK_SEC + t);
+		RefOut {
+			diff: std::cmp::max(ref_min_wtema(ct), next),
+			scaling: 0,
+			dma: false,
+			ts_delta: t,
+			..Default::default()
+		}
+	}
+}
+
+fn mmr_size(leaves: u64) -> u64 {
+	2 * leaves - leaves.count_ones() as u64
+}
+
+fn mix(salt: u64, tag: u64) -> u64 {
+	hash_of(&(salt, tag, "c04"))
+}
+
+fn rand_hash(salt: u64, tag: u64) -> Hash {
+	Hash::from_vec(&refmmr::blake(&[&salt.to_be_bytes(), &tag.to_be_bytes(), b"c04-hash"]))
+}
+
+fn err_variant(s: &str) -> String {
+	s.chars().take_while(|c| c.is_alphanumeric() || *c == '_').collect()
+}
+
+lazy_static::lazy_static! {
+	static ref REASONS: Mutex<BTreeMap<String, u64>> = Mutex::new(BTreeMap::new());
+}
+
+// =====================================================================
+// Part A
+// =====================================================================
+
+#[derive(Clone, Copy, Debug, PartialEq, Eq, Hash, Serialize, Deserialize)]
+pub enum Kind {
+	HeightPlus,
+	HeightMinus,
+	TsEqParent,
+	TsBeforeParent,
+	VersionPlus,
+	VersionMinus,
+	PrevHashKnown,
+	PrevHashRandom,
+	PrevRoot,
+	TdPlus1,
+	TdMinus1,
+	TdPlusK,
+	TdMinusK,
+	ScalingPlus,
+	ScalingMinus,
+	Nonce,
+	EdgeBitsLow,
+	EdgeBits29,
+	EdgeBitsHigh,
+	ProofNonce,
+	OutSizeZero,
+	KernSizeZero,
+	OutSizeHeavy,
+	KernSizeHeavy,
+	/// a valid cycle for the header bytes whose difficulty is below the network difficulty
+	PowBelowTarget,
+	/// sync chunk [.., header with wrong prev_root (re-mined), its child]
+	SyncMidChunkPrevRoot,
+	/// child of the accepted CtlTimestamp fork header carrying the difficulty of the main chain instead of its own ancestors'
+	ForkChildMainDifficulty,
+	/// controls: still valid
+	CtlTimestamp,
+	CtlRemine,
+	/// child of the accepted CtlTimestamp fork header, difficulty/scaling/prev_root from the reference over its own ancestors
+	ForkChild,
+}
+
+#[derive(Clone, Copy, Debug, PartialEq, Eq, Hash, Serialize, Deserialize)]
+pub enum Path {
+	Header,
+	Sync,
+	Block,
+}
+
+const PATHS: [Path; 3] = [Path::Header, Path::Sync, Path::Block];
+
+#[derive(Clone, Copy, Debug, PartialEq, Eq, Hash, Serialize, Deserialize)]
+pub struct Only {
+	/// mutated height
+	pub pos: u16,
+	pub kind: Kind,
+	pub remined: bool,
+	pub path: Path,
+}
+
+#[derive(Clone, Debug, Serialize, Deserialize)]
+pub struct CaseA {
+	/// block at height i+1: (seconds after its parent, k) with coinbase key height*4+k
+	pub recipe: Vec<(u16, u8)>,
+	/// heights of the mutated headers (clipped to the chain length; sorted, kept when >= 2 apart)
+	pub pos: Vec<u16>,
+	/// chunk size used by the sync delivery of the valid chain
+	pub chunk: u8,
+	/// number of valid headers preceding the mutant in its sync chunk
+	pub tail: u8,
+	pub salt: u64,
+	/// replay of one (mutation kind, delivery path) only
+	#[serde(default)]
+	pub only: Option<Only>,
+}
+
+pub fn strat_a() -> impl Strategy<Value = CaseA> {
+	let step = prop_oneof![
+		4 => (1u16..=600, 0u8..4),
+		2 => (1u16..=4, 0u8..4),
+		1 => (590u16..=600, 0u8..4),
+	];
+	(
+		prop::collection::vec(step, 5..=40),
+		prop_oneof![3 => Just(0u8), 2 => 8u8..=16],
+		prop::collection::vec(prop_oneof![2 => 1u16..=40, 2 => prop::sample::select(vec![1u16, 2, 3, 4, 6, 9, 11, 12, 13, 14, 15])], 3),
+		1u8..=8,
+		0u8..=4,
+		any::<u64>(),
+	)
+		.prop_map(|(mut recipe, fast, pos, chunk, tail, salt)| {
+			// fast prefix: difficulty rises through the DMA era so that the WTEMA
+			// era starts above its minimum
+			for s in recipe.iter_mut().take(fast as usize) {
+				s.0 = 1 + s.0 % 3;
+			}
+			CaseA {
+				recipe,
+				pos,
+				chunk,
+				tail,
+				salt,
+				only: None,
+			}
+		})
+}
+
+struct Mutant {
+	kind: Kind,
+	remined: bool,
+	header: BlockHeader,
+	accept: bool,
+	/// 0: rejected mutants, 1: controls, 2: children of the control fork
+	stage: u8,
+	/// delivery paths (None = all three)
+	paths: Option<Vec<Path>>,
+	/// extra headers delivered in the same sync chunk just before this one
+	pre: Vec<BlockHeader>,
+}
+
+impl Mutant {
+	fn new(kind: Kind, remined: bool, header: BlockHeader, accept: bool) -> Mutant {
+		Mutant {
+			kind,
+			remined,
+			header,
+			accept,
+			stage: if accept { 1 } else { 0 },
+			paths: None,
+			pre: vec![],
+		}
+	}
+}
+
+/// A header-only child of `ancestors.last()` (ancestors = genesis..parent): version,
+/// network difficulty, scaling and prev_root all come from the reference model.
+fn child_of(ancestors: &[BlockHeader], template: &BlockHeader, dt: i64, diff_override: Option<u128>) -> Result<BlockHeader, Fail> {
+	let parent = ancestors.last().unwrap();
+	let h = parent.height + 1;
+	let r = ref_next(Ct::AutomatedTesting, h, &window_of(ancestors, ancestors.len() - 1));
+	let ver = ref_version(Ct::AutomatedTesting, h);
+	let diff = diff_override.unwrap_or(r.diff) as u64;
+	let leaves: Vec<Vec<u8>> = ancestors.iter().map(|a| a.pow.proof.pack_nonces()).collect();
+	let mut c = template.clone();
+	c.version = HeaderVersion(ver);
+	c.height = h;
+	c.prev_hash = parent.hash();
+	c.prev_root = Hash::from_vec(&RefMmr::build(&leaves).root());
+	c.timestamp = parent.timestamp + Duration::seconds(dt);
+	c.output_mmr_size = mmr_size(h);
+	c.kernel_mmr_size = mmr_size(h);
+	c.pow.total_difficulty = Difficulty::from_num(parent.total_difficulty().to_num() + diff);
+	c.pow.secondary_scaling = if ver < 5 { r.scaling as u32 } else { 0 };
+	c.pow.nonce = 0;
+	remine(&mut c, diff)?;
+	Ok(c)
+}
+
+fn remine(h: &mut BlockHeader, target: u64) -> Result<(), Fail> {
+	h.pow.proof.edge_bits = global::min_edge_bits();
+	pow::pow_size(h, Difficulty::from_num(target), global::proofsize(), global::min_edge_bits())
+		.map_err(|e| Fail::new("harness:remine", format!("{:?}", e)))
+}
+
+/// All mutants of header `t` (parent `q`); `other` = hash of another known header.
+fn mutants(t: &BlockHeader, q: &BlockHeader, other: Option<Hash>, salt: u64) -> Result<Vec<Mutant>, Fail> {
+	let d = t.total_difficulty().to_num() - q.total_difficulty().to_num();
+	let td = t.total_difficulty().to_num();
+	let v5 = t.version.0 >= 5;
+	let mut out: Vec<Mutant> = vec![];
+	// (kind, mutated header, mining target, accept when re-mined, also keep raw variant)
+	let mut pre: Vec<(Kind, BlockHeader, u64, bool)> = vec![];
+	let mut m = |k: Kind, f: &dyn Fn(&mut BlockHeader), target: u64, accept: bool| {
+		let mut h = t.clone();
+		f(&mut h);
+		pre.push((k, h, target, accept));
+	};
+	m(Kind::HeightPlus, &|h| h.height += 1, d, false);
+	m(Kind::HeightMinus, &|h| h.height -= 1, d, false);
+	m(Kind::TsEqParent, &|h| h.timestamp = q.timestamp, d, false);
+	let back = 1 + (mix(salt, 1) % 1000) as i64;
+	m(Kind::TsBeforeParent, &|h| h.timestamp = q.timestamp - Duration::seconds(back), d, false);
+	m(Kind::VersionPlus, &|h| h.version = HeaderVersion(h.version.0 + 1), d, false);
+	m(Kind::VersionMinus, &|h| h.version = HeaderVersion(h.version.0 - 1), d, false);
+	if let Some(o) = other {
+		m(Kind::PrevHashKnown, &|h| h.prev_hash = o, d, false);
+	}
+	m(Kind::PrevHashRandom, &|h| h.prev_hash = rand_hash(salt, 2), d, false);
+	m(Kind::PrevRoot, &|h| h.prev_root = rand_hash(salt, 3), d, false);
+	m(Kind::TdPlus1, &|h| h.pow.total_difficulty = Difficulty::from_num(td + 1), d + 1, false);
+	m(Kind::TdMinus1, &|h| h.pow.total_difficulty = Difficulty::from_num(td - 1), d, false);
+	let k = 2 + mix(salt, 4) % 99;
+	m(Kind::TdPlusK, &|h| h.pow.total_difficulty = Difficulty::from_num(td + k), d + k, false);
+	// may end at or below the parent's total
+	let k2 = 2 + mix(salt, 5) % (d + 3);
+	if td > k2 {
+		m(Kind::TdMinusK, &|h| h.pow.total_difficulty = Difficulty::from_num(td - k2), d, false);
+	}
+	// before the last hard fork the scaling is dictated; afterwards it is free
+	m(Kind::ScalingPlus, &|h| h.pow.secondary_scaling = h.pow.secondary_scaling.wrapping_add(1), d, v5);
+	m(Kind::ScalingMinus, &|h| h.pow.secondary_scaling = h.pow.secondary_scaling.wrapping_sub(1), d, v5);
+	// every block adds one output and one kernel to an initially empty set
+	let leaves = q.height;
+	m(Kind::OutSizeZero, &|h| h.output_mmr_size = q.output_mmr_size, d, false);
+	m(Kind::KernSizeZero, &|h| h.kernel_mmr_size = q.kernel_mmr_size, d, false);
+	// 12 outputs weigh 252 > 250; 1 output + 77 kernels weigh 252 > 250
+	let xo = 12 + mix(salt, 6) % 5;
+	m(Kind::OutSizeHeavy, &|h| h.output_mmr_size = mmr_size(leaves + xo), d, false);
+	let xk = 77 + mix(salt, 7) % 9;
+	m(Kind::KernSizeHeavy, &|h| h.kernel_mmr_size = mmr_size(leaves + xk), d, false);
+	// controls
+	let mut ndt = 1 + (mix(salt, 8) % 3600) as i64;
+	if q.timestamp + Duration::seconds(ndt) == t.timestamp {
+		ndt += 1;
+	}
+	m(Kind::CtlTimestamp, &|h| h.timestamp = q.timestamp + Duration::seconds(ndt), d, true);
+	let bump = 1 + mix(salt, 9) % 1000;
+	m(Kind::CtlRemine, &|h| h.pow.nonce = h.pow.nonce.wrapping_add(bump), d, true);
+	for (k, h, target, accept) in pre {
+		// raw variant: the proof no longer belongs to the header bytes (for
+		// CtlRemine this is the "nonce changed without re-mining" case)
+		if k != Kind::CtlRemine {
+			out.push(Mutant::new(k, false, h.clone(), false));
+		}
+		let mut r = h;
+		remine(&mut r, target)?;
+		out.push(Mutant::new(k, true, r, accept));
+	}
+	// a genuine cycle that does not reach the network difficulty (every AutomatedTesting
+	// solution is worth at least the graph weight 20, so only where d > 20)
+	if d > 20 {
+		let mut h = t.clone();
+		h.pow.nonce = h.pow.nonce.wrapping_add(bump);
+		for _ in 0..800 {
+			remine(&mut h, 1)?;
+			if h.pow.to_difficulty(h.height).to_num() < d {
+				out.push(Mutant::new(Kind::PowBelowTarget, true, h.clone(), false));
+				break;
+			}
+			h.pow.nonce = h.pow.nonce.wrapping_add(1);
+		}
+	}
+	// proof-of-work fields themselves
+	let mut raw = |k: Kind, f: &dyn Fn(&mut BlockHeader)| {
+		let mut h = t.clone();
+		f(&mut h);
+		out.push(Mutant::new(k, false, h, false));
+	};
+	raw(Kind::Nonce, &|h| h.pow.nonce = h.pow.nonce.wrapping_add(bump));
+	let low = 1 + (mix(salt, 10) % 9) as u8;
+	raw(Kind::EdgeBitsLow, &|h| {
+		h.pow.proof.edge_bits = low;
+		for n in h.pow.proof.nonces.iter_mut() {
+			*n &= (1u64 << low) - 1;
+		}
+	});
+	raw(Kind::EdgeBits29, &|h| h.pow.proof.edge_bits = 29);
+	raw(Kind::EdgeBitsHigh, &|h| h.pow.proof.edge_bits = 11 + (mix(salt, 11) % 17) as u8);
+	let which = (mix(salt, 12) % t.pow.proof.nonces.len() as u64) as usize;
+	raw(Kind::ProofNonce, &|h| {
+		h.pow.proof.nonces[which] ^= 1 << (mix(salt, 13) % 10);
+	});
+	Ok(out)
+}
+
+fn window_of(headers: &[BlockHeader], upto: usize) -> Vec<Entry> {
+	// headers[0] = genesis; entries for heights upto..0, newest first
+	(0..=upto)
+		.rev()
+		.map(|i| Entry {
+			ts: headers[i].timestamp.timestamp() as u64,
+			diff: headers[i].total_difficulty().to_num() - if i > 0 { headers[i - 1].total_difficulty().to_num() } else { 0 },
+			scaling: headers[i].pow.secondary_scaling,
+			sec: headers[i].pow.proof.edge_bits == 29,
+		})
+		.collect()
+}
+
+/// Build the valid source chain with real PoW; every block is checked against
+/// the reference model (version, difficulty increment, scaling, prev_root).
+fn build_chain(ctx: &Ctx, recipe: &[(u16, u8)], tag: &str) -> Result<(ChainBox, Vec<Block>), Fail> {
+	let src = ChainBox::open(&ctx.scratch_dir(tag)).map_err(|e| Fail::new("harness:init", e))?;
+	let mut blocks: Vec<Block> = vec![];
+	let mut headers: Vec<BlockHeader> = vec![src.genesis.header.clone()];
+	let mut leaves: Vec<Vec<u8>> = vec![src.genesis.header.pow.proof.pack_nonces()];
+	for (i, (dt, k)) in recipe.iter().enumerate() {
+		let h = i as u64 + 1;
+		let prev = headers.last().unwrap().clone();
+		let b = make_block(src.c(), &prev, &[], (h * 4 + (*k as u64 % 4)) as u32, *dt as i64, PowMode::Real).map_err(|e| Fail::new("harness:build", format!("height {}: {}", h, e)))?;
+		// reference expectations for the header grin's own builder produced
+		let r = ref_next(Ct::AutomatedTesting, h, &window_of(&headers, i));
+		let inc = b.header.total_difficulty().to_num() - prev.total_difficulty().to_num();
+		ensure!(
+			inc as u128 == r.diff,
+			"network-difficulty-differs-from-reference",
+			"height {}: chain's network difficulty {} reference {} (window {:?})",
+			h,
+			inc,
+			r.diff,
+			window_of(&headers, i)
+		);
+		let ver = ref_version(Ct::AutomatedTesting, h);
+		ensure!(b.header.version.0 == ver, "scheduled-version-differs-from-reference", "height {}: version {} reference {}", h, b.header.version.0, ver);
+		if ver < 5 {
+			ensure!(
+				b.header.pow.secondary_scaling as u128 == r.scaling,
+				"network-scaling-differs-from-reference",
+				"height {}: scaling {} reference {}",
+				h,
+				b.header.pow.secondary_scaling,
+				r.scaling
+			);
+		}
+		// prev_root = MMR root over the ancestors (leaf = proof bytes, which is what a header hashes to)
+		let root = RefMmr::build(&leaves).root();
+		ensure!(
+			b.header.prev_root == Hash::from_vec(&root),
+			"prev-root-differs-from-reference",
+			"height {}: prev_root {:?} reference MMR root {:?}",
+			h,
+			b.header.prev_root,
+			Hash::from_vec(&root)
+		);
+		match catch(|| src.c().process_block(b.clone(), Options::NONE)) {
+			Ok(Ok(Some(_))) => {}
+			Ok(r) => fail!("valid-block-rejected:source", "height {}: source chain answered {:?}", h, r.map_err(|e| err_name(&e))),
+			Err(f) => return Err(f),
+		}
+		leaves.push(b.header.pow.proof.pack_nonces());
+		headers.push(b.header.clone());
+		blocks.push(b);
+	}
+	Ok((src, blocks))
+}
+
+fn deliver(path: Path, cb: &ChainBox, hdr: &BlockHeader, tail: &[BlockHeader], body: &Block) -> Result<Result<(), String>, Fail> {
+	catch(|| match path {
+		Path::Header => cb.c().process_block_header(hdr, Options::NONE).map_err(|e| format!("{:?}", e)),
+		Path::Sync => {
+			let mut v = tail.to_vec();
+			v.push(hdr.clone());
+			let sh = cb.c().header_head().map_err(|e| format!("header_head: {:?}", e))?;
+			cb.c().sync_block_headers(&v, sh, Options::SYNC).map(|_| ()).map_err(|e| format!("{:?}", e))
+		}
+		Path::Block => {
+			let b = Block {
+				header: hdr.clone(),
+				body: body.body.clone(),
+			};
+			cb.c().process_block(b, Options::NONE).map(|_| ()).map_err(|e| format!("{:?}", e))
+		}
+	})
+}
+
+fn hh(cb: &ChainBox) -> Result<Tip, Fail> {
+	cb.c().header_head().map_err(|e| Fail::new("header-head-err", format!("{:?}", e)))
+}
+
+fn era_name(height: u64) -> String {
+	let v = ref_version(Ct::AutomatedTesting, height);
+	if height == 12 {
+		"v5-first".into()
+	} else if height == 13 {
+		"v5-second".into()
+	} else {
+		format!("v{}", v)
+	}
+}
+
+pub fn check_a(ctx: &Ctx, case: &CaseA, counting: bool, at: &mut Option<Only>) -> PResult {
+	init_thread();
+	*at = None;
+	let ev = &ctx.ev;
+	let dbg = std::env::var("GV_DEBUG").is_ok();
+	let t_start = std::time::Instant::now();
+	let n = case.recipe.len();
+	ensure!(n >= 1, "harness:case", "empty recipe");
+	let (src, blocks) = build_chain(ctx, &case.recipe, "a-src")?;
+	if dbg {
+		eprintln!("A: n={} build {:.2}s", n, t_start.elapsed().as_secs_f64());
+	}
+	let genesis = src.genesis.header.clone();
+	let hdr = |h: usize| -> &BlockHeader {
+		if h == 0 {
+			&genesis
+		} else {
+			&blocks[h - 1].header
+		}
+	};
+	let src_hh = hh(&src)?;
+	ensure!(src_hh.last_block_h == blocks[n - 1].hash(), "valid-block-rejected:source", "source header_head is not the last block");
+	// mutated heights: increasing, at least 2 apart (so that the valid chain is
+	// the head again before the next one)
+	let mut positions: Vec<usize> = case.pos.iter().map(|p| (*p as usize).clamp(1, n)).collect();
+	positions.sort();
+	let mut keep: Vec<usize> = vec![];
+	for p in positions {
+		if keep.last().map(|l| p >= l + 2).unwrap_or(true) {
+			keep.push(p);
+		}
+	}
+	if let Some(o) = case.only {
+		keep.retain(|p| *p == o.pos as usize);
+	}
+	let positions = keep;
+	let chunk = (case.chunk as usize).max(1);
+
+	// --- three receiving chains
+	let ch = ChainBox::open(&ctx.scratch_dir("a-h")).map_err(|e| Fail::new("harness:init", e))?;
+	let cs = ChainBox::open(&ctx.scratch_dir("a-s")).map_err(|e| Fail::new("harness:init", e))?;
+	let cf = ChainBox::open(&ctx.scratch_dir("a-f")).map_err(|e| Fail::new("harness:init", e))?;
+	let feed_h = |from: usize, to: usize| -> PResult {
+		for h in from..=to {
+			match deliver(Path::Header, &ch, hdr(h), &[], &blocks[h - 1])? {
+				Ok(()) => {}
+				Err(e) => fail!("valid-header-rejected:Header", "height {} of {} refused by process_block_header: {}", h, n, e),
+			}
+		}
+		Ok(())
+	};
+	let feed_s = |from: usize, to: usize| -> PResult {
+		let mut a = from;
+		while a <= to {
+			let b = (a + chunk - 1).min(to);
+			let v: Vec<BlockHeader> = (a..b).map(|h| hdr(h).clone()).collect();
+			match deliver(Path::Sync, &cs, hdr(b), &v, &blocks[b - 1])? {
+				Ok(()) => {}
+				Err(e) => fail!("valid-header-rejected:Sync", "chunk {}..={} of {} refused by sync_block_headers: {}", a, b, n, e),
+			}
+			a = b + 1;
+		}
+		Ok(())
+	};
+	let feed_f = |from: usize, to: usize| -> PResult {
+		for h in from..=to {
+			match deliver(Path::Block, &cf, hdr(h), &[], &blocks[h - 1])? {
+				Ok(()) => {}
+				Err(e) => fail!("valid-header-rejected:Block", "block {} of {} refused by process_block: {}", h, n, e),
+			}
+		}
+		Ok(())
+	};
+	let chain_of = |path: Path| match path {
+		Path::Header => &ch,
+		Path::Sync => &cs,
+		Path::Block => &cf,
+	};
+	// highest valid height delivered so far on each path
+	let (mut fed_h, mut fed_s, mut fed_f) = (0usize, 0usize, 0usize);
+	let mut prev_pos: Option<usize> = None;
+	let mut controls_ok = 0u64;
+	// highest total difficulty of an accepted header that is not on the valid chain, per path
+	let mut foreign = [0u64; 3];
+	// the head is the given valid header unless an accepted foreign header has at least as much work
+	let head_is = |tip: Tip, want: &BlockHeader, foreign: u64| -> bool {
+		let w = want.total_difficulty().to_num();
+		if w > foreign {
+			tip.last_block_h == want.hash()
+		} else {
+			tip.total_difficulty.to_num() == foreign
+		}
+	};
+	let mut sample_mutants: Vec<String> = vec![];
+	for &p in &positions {
+		let t = hdr(p).clone();
+		let q = hdr(p - 1).clone();
+		// the sync chain stops `tail_n` headers short of the parent; those come with the mutant
+		let room = match prev_pos {
+			Some(pp) => p - 2 - pp,
+			None => p - 1,
+		};
+		let tail_n = (case.tail as usize).min(room);
+		if p - 1 > fed_h {
+			feed_h(fed_h + 1, p - 1)?;
+			fed_h = p - 1;
+		}
+		if p - 1 > fed_f {
+			feed_f(fed_f + 1, p - 1)?;
+			fed_f = p - 1;
+		}
+		if p - 1 - tail_n > fed_s {
+			feed_s(fed_s + 1, p - 1 - tail_n)?;
+			fed_s = p - 1 - tail_n;
+		}
+		ensure!(head_is(hh(&ch)?, &q, foreign[0]), "valid-header-rejected:Header", "header_head after prefix {} is not the parent", p - 1);
+		ensure!(head_is(hh(&cf)?, &q, foreign[2]), "valid-header-rejected:Block", "header_head after prefix {} is not the parent", p - 1);
+		ensure!(
+			cf.c().head().map(|h| head_is(h, &q, foreign[2])).unwrap_or(false),
+			"valid-header-rejected:Block",
+			"head after prefix {} is not the parent",
+			p - 1
+		);
+		ensure!(head_is(hh(&cs)?, hdr(p - 1 - tail_n), foreign[1]), "valid-header-rejected:Sync", "header_head after prefix {} is not the expected ancestor", p - 1 - tail_n);
+		let tail: Vec<BlockHeader> = (p - tail_n..p).map(|h| hdr(h).clone()).collect();
+		let other = if p >= 2 { Some(hdr(p - 2).hash()) } else { None };
+		if dbg {
+			eprintln!("A: p={} prefix fed {:.2}s", p, t_start.elapsed().as_secs_f64());
+		}
+		let mut ms = mutants(&t, &q, other, mix(case.salt, p as u64))?;
+		// ancestors genesis..=p-1; header-only children built from the reference model
+		let anc: Vec<BlockHeader> = (0..p).map(|h| hdr(h).clone()).collect();
+		let template = if p < n { hdr(p + 1).clone() } else { t.clone() };
+		let xdt = 1 + (mix(case.salt, 100 + p as u64) % 600) as i64;
+		if let Some(bad) = ms.iter().find(|m| m.kind == Kind::PrevRoot && m.remined).map(|m| m.header.clone()) {
+			let mut a = anc.clone();
+			a.push(bad.clone());
+			let mut m = Mutant::new(Kind::SyncMidChunkPrevRoot, true, child_of(&a, &template, xdt, None)?, false);
+			m.paths = Some(vec![Path::Sync]);
+			m.pre = vec![bad];
+			ms.push(m);
+		}
+		let fork_parent = ms.iter().find(|m| m.kind == Kind::CtlTimestamp && m.remined).map(|m| m.header.clone());
+		if let Some(c) = &fork_parent {
+			let mut a = anc.clone();
+			a.push(c.clone());
+			let good = child_of(&a, &template, xdt, None)?;
+			let own = (good.total_difficulty().to_num() - c.total_difficulty().to_num()) as u128;
+			// what the main chain demands after the true header of this height
+			let mut b = anc.clone();
+			b.push(t.clone());
+			let main = ref_next(Ct::AutomatedTesting, p as u64 + 1, &window_of(&b, b.len() - 1));
+			if main.diff != own {
+				let mut w = Mutant::new(Kind::ForkChildMainDifficulty, true, child_of(&a, &template, xdt, Some(main.diff))?, false);
+				w.stage = 2;
+				w.paths = Some(vec![Path::Header, Path::Sync]);
+				ms.push(w);
+			}
+			let mut m = Mutant::new(Kind::ForkChild, true, good, true);
+			m.stage = 2;
+			m.paths = Some(vec![Path::Header, Path::Sync]);
+			ms.push(m);
+		}
+		if dbg {
+			eprintln!("A: {} mutants made {:.2}s", ms.len(), t_start.elapsed().as_secs_f64());
+		}
+		if sample_mutants.is_empty() {
+			sample_mutants = ms.iter().map(|m| format!("{:?}/{}{}", m.kind, if m.remined { "remined" } else { "raw" }, if m.accept { " (control)" } else { "" })).collect();
+		}
+		let era = era_name(p as u64);
+		// rejected mutants first, controls afterwards (they move the head), then children of the control fork
+		for pass in 0..3u8 {
+			if pass == 2 && case.only.is_some() {
+				// replay of a single fork-child case: its parent must be known first
+				if let Some(c) = &fork_parent {
+					let _ = deliver(Path::Header, &ch, c, &[], &blocks[p - 1])?;
+					let _ = deliver(Path::Sync, &cs, c, &tail, &blocks[p - 1])?;
+				}
+			}
+			for m in ms.iter().filter(|m| m.stage == pass) {
+				for path in PATHS {
+					if let Some(ps) = &m.paths {
+						if !ps.contains(&path) {
+							continue;
+						}
+					}
+					let me = Only {
+						pos: p as u16,
+						kind: m.kind,
+						remined: m.remined,
+						path,
+					};
+					if let Some(o) = case.only {
+						if o != me {
+							continue;
+						}
+					}
+					*at = Some(me);
+					let cb = chain_of(path);
+					let before = hh(cb)?;
+					let body_before = cb.c().head().map_err(|e| Fail::new("head-err", format!("{:?}", e)))?;
+					let mut chunk_pre: Vec<BlockHeader> = if path == Path::Sync && pass < 2 { tail.clone() } else { vec![] };
+					chunk_pre.extend(m.pre.iter().cloned());
+					let res = deliver(path, cb, &m.header, &chunk_pre, &blocks[p - 1])?;
+					let after = hh(cb)?;
+					let label = format!("{:?}:{}:{:?}", m.kind, if m.remined { "remined" } else { "raw" }, path);
+					let what = format!("chain of {} blocks, mutated height {} ({}), {}", n, p, era, label);
+					if !m.accept {
+						match &res {
+							Ok(()) => fail!(format!("mutant-accepted:{}", label), "{}: accepted; true header {:?} mutant {:?}", what, t, m.header),
+							Err(e) => {
+								if counting {
+									let key = format!("{:?}/{}/{:?} -> {}", m.kind, if m.remined { "remined" } else { "raw" }, path, err_variant(e));
+									*REASONS.lock().unwrap().entry(key).or_insert(0) += 1;
+								}
+							}
+						}
+						ensure!(after == before, format!("head-moved-on-reject:{}", label), "{}: header_head moved from {:?} to {:?}", what, before, after);
+						let body_after = cb.c().head().map_err(|e| Fail::new("head-err", format!("{:?}", e)))?;
+						ensure!(body_after == body_before, format!("head-moved-on-reject:{}", label), "{}: head moved from {:?} to {:?}", what, body_before, body_after);
+						for x in m.pre.iter().chain(std::iter::once(&m.header)) {
+							ensure!(
+								cb.c().get_block_header(&x.hash()).is_err(),
+								format!("rejected-header-stored:{}", label),
+								"{}: header refused but retrievable from the store",
+								what
+							);
+						}
+					} else {
+						if let Err(e) = &res {
+							fail!(format!("control-rejected:{}", label), "{}: still-valid header refused: {}; true {:?} control {:?}", what, e, t, m.header);
+						}
+						let want = std::cmp::max(before.total_difficulty, m.header.total_difficulty());
+						ensure!(
+							after.total_difficulty == want,
+							format!("control-rejected:{}", label),
+							"{}: header_head after accepting a valid header of total difficulty {} is {:?} (before {:?})",
+							what,
+							m.header.total_difficulty(),
+							after,
+							before
+						);
+						match cb.c().get_block_header(&m.header.hash()) {
+							Ok(h) => ensure!(h == m.header, format!("control-rejected:{}", label), "{}: stored header differs", what),
+							Err(e) => fail!(format!("control-rejected:{}", label), "{}: accepted header not stored: {:?}", what, e),
+						}
+						let f = &mut foreign[path as usize];
+						*f = (*f).max(m.header.total_difficulty().to_num());
+						controls_ok += 1;
+					}
+					if counting {
+						ev.eval();
+						ev.class(&format!("A:kind:{:?}", m.kind));
+						ev.class(&format!("A:path:{:?}", path));
+						if m.remined {
+							ev.class("A:mutants_with_valid_pow");
+							ev.nontrivial(&("A", m.kind, era.clone(), path));
+						} else {
+							ev.class("A:mutants_with_stale_pow");
+						}
+					}
+				}
+			}
+		}
+		*at = None;
+		if counting {
+			ev.class(&format!("A:pos_era:{}", era));
+		}
+		prev_pos = Some(p);
+		if dbg {
+			eprintln!("A: mutants delivered {:.2}s", t_start.elapsed().as_secs_f64());
+		}
+	}
+	if counting && controls_ok > 0 {
+		ev.class_n("controls_accepted", controls_ok);
+	}
+	if case.only.is_some() || positions.is_empty() {
+		return Ok(());
+	}
+	let plast = *positions.last().unwrap();
+
+	// --- the true header and its descendants still go through on every path
+	// (full blocks only two past the last mutated height: block validation is the expensive part)
+	let f_to = n.min(plast + 2);
+	feed_h(fed_h + 1, n)?;
+	feed_s(fed_s + 1, n)?;
+	feed_f(fed_f + 1, f_to)?;
+	for (path, cb) in [(Path::Header, &ch), (Path::Sync, &cs)] {
+		let e = hh(cb)?;
+		ensure!(
+			head_is(e, hdr(n), foreign[path as usize]),
+			format!("valid-header-rejected:{:?}", path),
+			"after delivering the whole valid chain header_head is {:?}, source chain {:?}",
+			e,
+			src_hh
+		);
+	}
+	for e in [hh(&cf)?, cf.c().head().map_err(|e| Fail::new("head-err", format!("{:?}", e)))?] {
+		ensure!(
+			head_is(e, hdr(f_to), foreign[2]),
+			"valid-header-rejected:Block",
+			"after delivering blocks up to {} head/header_head is {:?}",
+			f_to,
+			e
+		);
+	}
+	// a stale-PoW mutant shares the hash of the (now known) true header: it must
+	// not replace it nor move the head, whatever the call returns
+	{
+		let t = hdr(plast).clone();
+		let mut m = t.clone();
+		m.timestamp = hdr(plast - 1).timestamp;
+		let before = hh(&ch)?;
+		let r = deliver(Path::Header, &ch, &m, &[], &blocks[plast - 1])?;
+		if counting {
+			ev.class(if r.is_ok() { "A:same_hash_mutant_after_original:returned_ok" } else { "A:same_hash_mutant_after_original:returned_err" });
+		}
+		ensure!(hh(&ch)? == before, "head-moved-on-reject:same-hash", "header_head moved by a same-hash mutant of a known header");
+		match ch.c().get_block_header(&t.hash()) {
+			Ok(h) => ensure!(h == t, "known-header-replaced-by-mutant", "stored header at height {} replaced by a stale-PoW mutant with the same hash", plast),
+			Err(e) => fail!("known-header-replaced-by-mutant", "true header vanished: {:?}", e),
+		}
+	}
+	if dbg {
+		eprintln!("A: done {:.2}s", t_start.elapsed().as_secs_f64());
+	}
+	if counting {
+		ev.class_n("A:valid_headers_accepted_per_path", n as u64);
+		if n >= 13 {
+			ev.class("A:chains_crossing_both_eras");
+		}
+		if (12..=n).any(|h| hdr(h).total_difficulty().to_num() - hdr(h - 1).total_difficulty().to_num() > 20) {
+			ev.class("A:chains_with_wtema_above_minimum");
+		}
+		if (1..=n.min(11)).any(|h| hdr(h).total_difficulty().to_num() - hdr(h - 1).total_difficulty().to_num() > 3) {
+			ev.class("A:chains_with_dma_above_minimum");
+		}
+		ev.sample("A", || json!({"recipe": case.recipe, "mutated_heights": positions, "sync_chunk": chunk, "sync_tail": case.tail, "mutants_per_height": sample_mutants}));
+	}
 	Ok(())
+}
+
+// =====================================================================
+// Part B
+// =====================================================================
+
+#[derive(Clone, Debug, Serialize, Deserialize)]
+pub struct CaseB {
+	pub chain_type: Ct,
+	pub height: u64,
+	/// newest first
+	pub entries: Vec<Entry>,
+}
+
+fn era_range(ct: Ct, era: u8) -> (u64, u64) {
+	let s = ref_era_starts(ct);
+	let e = (era.clamp(1, 5) - 1) as usize;
+	let lo = if e == 0 { 1 } else { s[e] };
+	let hi = if e == 4 {
+		match ct {
+			// consensus.rs:149 casts 1 + height/3 to u16 *before* taking min(5, ..): from
+			// height 196_605 on the schedule wraps to versions 0..4. The random windows stay
+			// below; the wrap itself is reported by the directed probes in `run`.
+			Ct::AutomatedTesting | Ct::UserTesting => R_WRAP_TESTING,
+			_ => s[4] + 20_000_000,
+		}
+	} else {
+		s[e + 1]
+	};
+	(lo, hi) // [lo, hi)
+}
+
+pub fn strat_b() -> impl Strategy<Value = CaseB> {
+	let diff = prop_oneof![
+		3 => (0u32..48, any::<u64>()).prop_map(|(b, r)| (1u64 << b) + (r & ((1u64 << b) - 1))),
+		1 => 1u64..=64,
+		1 => Just(1u64 << 48),
+	];
+	let delta = prop_oneof![4 => 1u32..=600, 2 => 1u32..=3, 1 => 1u32..=1_000_000, 1 => 55u32..=65];
+	(
+		(0u8..4, 1u8..=5, 0u8..6, any::<u64>(), 0u8..8, any::<u16>()),
+		(1_000_000_000u64..2_000_000_000, 0u8..4, 0u8..4),
+		prop::collection::vec((delta, diff, 0u32..(1u32 << 31), any::<bool>(), 0u8..=255), 70),
+	)
+		.prop_map(|((cti, era, hmode, hr, nmode, nr), (base_ts, dmode, smode), raw)| {
+			let ct = Ct::from_idx(cti);
+			let (lo, hi) = era_range(ct, era);
+			let span = hi - lo;
+			let height = match hmode {
+				0 => lo + hr % span.min(3),
+				1 => hi - 1 - hr % span.min(3),
+				2 => lo + hr % span.min(70),
+				_ => lo + hr % span,
+			};
+			let dma = ref_version(ct, height) < 5;
+			let maxn = height.min(70) as usize;
+			let want = height.min(61) as usize;
+			let n = if dma {
+				match nmode {
+					0 | 1 | 2 => want,
+					3 => 1 + (nr as usize * maxn >> 16),
+					4 => 1 + (nr as usize * want >> 16),
+					5 => maxn,
+					6 => 1.max(want.saturating_sub(1 + nr as usize % 3)),
+					_ => 1 + (nr as usize % 3).min(maxn - 1),
+				}
+			} else {
+				(match nmode {
+					0 | 1 => 2,
+					2 => 3,
+					_ => 2 + (nr as usize * 69 >> 16),
+				})
+				.min(height.max(2) as usize)
+			};
+			let mut entries = Vec::with_capacity(n);
+			let mut ts = base_ts;
+			let d0 = raw[0].1;
+			for (i, (dl, df, sc, sec, j)) in raw.iter().take(n).enumerate() {
+				if i > 0 {
+					ts -= *dl as u64;
+				}
+				let diff = match dmode {
+					// independent, constant, slowly varying around the first
+					0 => *df,
+					1 => d0,
+					_ => (d0 as u128 * (240 + (*j as u128 % 32)) / 256).max(1) as u64,
+				};
+				let (scaling, sec) = match smode {
+					0 => (*sc, *sec),
+					1 => (ref_initial_scaling(ct), *j % 10 != 0),
+					2 => (1 + *sc % 4096, *j % 10 == 0),
+					_ => (*sc, false),
+				};
+				entries.push(Entry {
+					ts,
+					diff,
+					scaling,
+					sec,
+				});
+			}
+			CaseB {
+				chain_type: ct,
+				height,
+				entries,
+			}
+		})
+}
+
+fn grin_next(case: &CaseB, entries: &[Entry]) -> Result<HeaderDifficultyInfo, Fail> {
+	global::set_local_chain_type(case.chain_type.grin());
+	let h = case.height;
+	let r = catch(|| {
+		consensus::next_difficulty(
+			h,
+			entries
+				.iter()
+				.map(|e| HeaderDifficultyInfo::new(None, e.ts, Difficulty::from_num(e.diff), e.scaling, e.sec))
+				.collect::<Vec<_>>(),
+		)
+	});
+	global::set_local_chain_type(ChainTypes::AutomatedTesting);
+	r
+}
+
+pub fn check_b(ctx: &Ctx, case: &CaseB, counting: bool) -> PResult {
+	let ev = &ctx.ev;
+	let ct = case.chain_type;
+	let h = case.height;
+	let w = &case.entries;
+	let dma = ref_version(ct, h) < 5;
+	// domain
+	ensure!(h >= 1 && !w.is_empty() && (dma || w.len() >= 2), "harness:case", "window outside the domain");
+	ensure!(w.windows(2).all(|p| p[0].ts > p[1].ts), "harness:case", "timestamps not strictly increasing");
+	let g1 = grin_next(case, w)?;
+	let g2 = grin_next(case, w)?;
+	let tag = format!("{:?}:{}", ct, if dma { "dma" } else { "wtema" });
+	ensure!(g1 == g2, format!("nondeterministic:{}", tag), "same window, two results: {:?} vs {:?}", g1, g2);
+	// scheduled version agrees with the reference (selects the algorithm)
+	global::set_local_chain_type(ct.grin());
+	let gv = consensus::header_version(h).0;
+	global::set_local_chain_type(ChainTypes::AutomatedTesting);
+	ensure!(
+		gv == ref_version(ct, h),
+		format!("{}:{:?}", if schedule_wraps(ct, h) { "version-schedule-u16-wrap" } else { "version-schedule" }, ct),
+		"{:?}: header_version({}) = {} but the schedule (version 5 from height {} on, for ever) says {}",
+		ct,
+		h,
+		gv,
+		ref_era_starts(ct)[4],
+		ref_version(ct, h)
+	);
+	let r = ref_next(ct, h, w);
+	let got = g1.difficulty.to_num() as u128;
+	ensure!(
+		got == r.diff,
+		format!("retarget-mismatch:{}", tag),
+		"{:?} height {} window of {}: next difficulty {} reference {} (ts_delta {} diff_sum {} adj_ts {})",
+		ct,
+		h,
+		w.len(),
+		got,
+		r.diff,
+		r.ts_delta,
+		r.diff_sum,
+		r.adj_ts
+	);
+	ensure!(
+		g1.secondary_scaling as u128 == r.scaling,
+		format!("scaling-mismatch:{}", tag),
+		"{:?} height {} window of {}: secondary scaling {} reference {}",
+		ct,
+		h,
+		w.len(),
+		g1.secondary_scaling,
+		r.scaling
+	);
+	// bounds of the statement, written without the reference's intermediate steps
+	let at_min;
+	let mut clamp_active = false;
+	if dma {
+		ensure!(got >= R_MIN_DMA, format!("below-minimum:{}", tag), "difficulty {} < 3", got);
+		ensure!(g1.secondary_scaling as u128 >= R_MIN_AR_SCALE, format!("below-minimum-scaling:{}", tag), "scaling {} < 13", g1.secondary_scaling);
+		// adjusted timespan within [window/2, 2*window], and by damping of a
+		// non-negative timespan never below 2/3 of the window
+		let lo = std::cmp::max(R_MIN_DMA, r.diff_sum * 60 / 7200);
+		let hi = std::cmp::max(R_MIN_DMA, r.diff_sum * 60 / 1800);
+		let hi_damp = std::cmp::max(R_MIN_DMA, r.diff_sum * 60 / 2400);
+		ensure!(got >= lo && got <= hi && got <= hi_damp, format!("dma-bound:{}", tag), "difficulty {} outside [{}, {}] (window sum {})", got, lo, hi.min(hi_damp), r.diff_sum);
+		at_min = got == R_MIN_DMA;
+		clamp_active = r.adj_ts == 7200 || r.adj_ts == 1800;
+	} else {
+		let min = ref_min_wtema(ct);
+		ensure!(got >= min, format!("below-minimum:{}", tag), "difficulty {} < {}", got, min);
+		// block time >= 1 s: rises by at most the factor 14400/14341; never rises for blocks of >= 60 s
+		let up = std::cmp::max(min, (w[0].diff as u128) * 14400 / 14341);
+		ensure!(got <= up, format!("wtema-bound:{}", tag), "difficulty {} after {} exceeds the one-block bound {}", got, w[0].diff, up);
+		if w[0].ts - w[1].ts >= 60 {
+			ensure!(got <= std::cmp::max(min, w[0].diff as u128), format!("wtema-bound:{}", tag), "difficulty rose from {} to {} after a block of {} s", w[0].diff, got, w[0].ts - w[1].ts);
+		}
+		at_min = got == min;
+	}
+	// a later newest timestamp never raises the next difficulty
+	{
+		let shift = 1 + hash_of(&(h, w.len(), w[0].ts)) % 5000;
+		let mut w2 = w.clone();
+		w2[0].ts += shift;
+		let g3 = grin_next(case, &w2)?;
+		ensure!(
+			g3.difficulty.to_num() as u128 <= got,
+			format!("not-monotone:{}", tag),
+			"newest timestamp +{} s raised the difficulty from {} to {}",
+			shift,
+			got,
+			g3.difficulty.to_num()
+		);
+	}
+	if counting {
+		ev.eval();
+		let era = ref_version(ct, h);
+		let (lo, hi) = era_range(ct, era as u8);
+		let boundary = h < lo + 3 || h + 3 >= hi && era < 5;
+		let short = dma && w.len() < R_WINDOW + 1;
+		let ncls = if dma {
+			match w.len() {
+				1 => "1",
+				2..=10 => "2-10",
+				11..=59 => "11-59",
+				60 => "60",
+				61 => "61",
+				_ => "62+",
+			}
+		} else {
+			match w.len() {
+				2 => "2",
+				_ => "3+",
+			}
+		};
+		ev.class(&format!("B:{:?}:v{}", ct, era));
+		ev.class(&format!("B:window:{}:{}", if dma { "dma" } else { "wtema" }, ncls));
+		if boundary {
+			ev.class("B:era_boundary_adjacent");
+		}
+		if at_min {
+			ev.class("B:result_at_minimum");
+		}
+		if clamp_active {
+			ev.class("B:dma_clamp_active");
+		}
+		if short || boundary {
+			ev.nontrivial(&("B", ct, era, ncls, boundary, at_min, clamp_active));
+		}
+		ev.sample("B", || serde_json::to_value(case).unwrap());
+	}
+	Ok(())
+}
+
+// =====================================================================
+// Part C
+// =====================================================================
+
+#[derive(Clone, Copy, Debug, PartialEq, Eq, Hash, Serialize, Deserialize)]
+pub enum CKind {
+	Untouched,
+	CtlRecentTimestamp,
+	TsFuture,
+	Version,
+	EdgeBits,
+	EdgeBits29,
+	OutSize,
+	KernSize,
+	CtlSizeAtBound,
+}
+
+#[derive(Clone, Debug, Serialize, Deserialize)]
+pub struct CaseC {
+	/// a valid mined AutomatedTesting header
+	pub header: String,
+	pub mutation: CKind,
+	pub param: u64,
+	pub remine: bool,
+}
+
+fn hdr_hex(h: &BlockHeader) -> Result<String, Fail> {
+	let b = catch(|| ser::ser_vec(h, ProtocolVersion(1)))?.map_err(|e| Fail::new("harness:ser", format!("{:?}", e)))?;
+	Ok(b.to_hex())
+}
+
+fn hdr_from_hex(s: &str) -> Result<BlockHeader, Fail> {
+	let b = grin_util::from_hex(s).map_err(|e| Fail::new("harness:hex", format!("{:?}", e)))?;
+	ser::deserialize::<BlockHeader, _>(&mut &b[..], ProtocolVersion(1), DeserializationMode::default()).map_err(|e| Fail::new("harness:deser", format!("{:?}", e)))
+}
+
+pub fn check_c(ctx: &Ctx, case: &CaseC, counting: bool) -> PResult {
+	init_thread();
+	let ev = &ctx.ev;
+	let t = hdr_from_hex(&case.header)?;
+	let mut m = t.clone();
+	let now = Utc::now().timestamp();
+	let ftl = 300i64; // documented default future time limit: 5 minutes
+	ensure!(global::get_future_time_limit() as i64 == ftl, "harness:ftl", "future time limit is not the default");
+	let bound = 250 * (t.height + 1); // weight bound: max block weight per block so far
+	let mut accept = false;
+	match case.mutation {
+		CKind::Untouched => accept = true,
+		CKind::CtlRecentTimestamp => {
+			// within the limit by a margin of one hour
+			m.timestamp = DateTime::<Utc>::from_timestamp(now + ftl - 3600 - (case.param % 100_000) as i64, 0).unwrap();
+			accept = case.remine;
+		}
+		CKind::TsFuture => {
+			m.timestamp = DateTime::<Utc>::from_timestamp(now + ftl + 3600 + (case.param % 1_000_000_000) as i64, 0).unwrap();
+		}
+		CKind::Version => {
+			let cands: Vec<u16> = [0u16, 1, 2, 3, 4, 5, 6, 7, 255, 65535].iter().cloned().filter(|v| *v != ref_version(Ct::AutomatedTesting, t.height)).collect();
+			m.version = HeaderVersion(cands[(case.param % cands.len() as u64) as usize]);
+		}
+		CKind::EdgeBits => {
+			let e = 1 + (case.param % 9) as u8; // 1..=9: below the minimum 10, not 29
+			m.pow.proof.edge_bits = e;
+			for n in m.pow.proof.nonces.iter_mut() {
+				*n &= (1u64 << e) - 1;
+			}
+		}
+		CKind::EdgeBits29 => m.pow.proof.edge_bits = 29,
+		CKind::OutSize => {
+			// smallest leaf count whose weight (21 each, kernels 3 each) exceeds the bound, plus a bit
+			let k = t.height; // kernels so far
+			let l = (bound - 3 * k) / 21 + 1 + case.param % 1000;
+			m.output_mmr_size = mmr_size(l);
+		}
+		CKind::KernSize => {
+			let o = t.height;
+			let l = (bound - 21 * o) / 3 + 1 + case.param % 1000;
+			m.kernel_mmr_size = mmr_size(l);
+		}
+		CKind::CtlSizeAtBound => {
+			let k = t.height;
+			let l = (bound - 3 * k) / 21; // largest output count within the bound
+			m.output_mmr_size = mmr_size(l);
+			accept = case.remine;
+		}
+	}
+	let pow_fields = matches!(case.mutation, CKind::EdgeBits | CKind::EdgeBits29 | CKind::Untouched);
+	let remined = case.remine && !pow_fields;
+	if remined {
+		remine(&mut m, 1)?;
+	}
+	let bytes = catch(|| ser::ser_vec(&m, ProtocolVersion(1)))?.map_err(|e| Fail::new("harness:ser", format!("{:?}", e)))?;
+	let res = catch(|| ser::deserialize::<UntrustedBlockHeader, _>(&mut &bytes[..], ProtocolVersion(1), DeserializationMode::default()))?;
+	let label = format!("{:?}:{}", case.mutation, if remined { "remined" } else { "raw" });
+	if accept {
+		match res {
+			Ok(u) => {
+				let back: BlockHeader = u.into();
+				ensure!(back == m, format!("decoded-header-differs:{}", label), "decoded {:?} encoded {:?}", back, m);
+			}
+			Err(e) => fail!(format!("valid-header-refused-at-read:{}", label), "height {}: {:?}; header {:?}", t.height, e, m),
+		}
+	} else {
+		if let Ok(_) = res {
+			fail!(format!("policy-violating-header-decoded:{}", label), "height {} param {}: decoded {:?}", t.height, case.param, m);
+		}
+	}
+	if counting {
+		ev.eval();
+		ev.class(&format!("C:{}", label));
+		if accept {
+			ev.class("controls_accepted");
+		} else if remined {
+			ev.nontrivial(&("C", case.mutation, ref_version(Ct::AutomatedTesting, t.height)));
+		}
+		ev.sample("C", || serde_json::to_value(case).unwrap());
+	}
+	Ok(())
+}
+
+fn strat_c(pool: usize) -> impl Strategy<Value = (usize, CKind, u64, bool)> {
+	(
+		0..pool,
+		prop_oneof![
+			1 => Just(CKind::Untouched),
+			1 => Just(CKind::CtlRecentTimestamp),
+			3 => Just(CKind::TsFuture),
+			3 => Just(CKind::Version),
+			2 => Just(CKind::EdgeBits),
+			1 => Just(CKind::EdgeBits29),
+			2 => Just(CKind::OutSize),
+			2 => Just(CKind::KernSize),
+			1 => Just(CKind::CtlSizeAtBound),
+		],
+		any::<u64>(),
+		prop::bool::weighted(0.75),
+	)
+}
+
+// =====================================================================
+
+pub fn run(ctx: &Ctx) -> HResult<()> {
+	init_global();
+	let ev = &ctx.ev;
+	ev.rule("A: AutomatedTesting chains of 5-40 empty blocks mined with real PoW (block times 1-600 s, optional fast prefix so that difficulty leaves its minimum in both retarget eras); every block is cross-checked against the reference (version schedule, network difficulty, scaling, prev_root = reference MMR root over the ancestors). Up to three headers per chain (random / era-boundary heights, >= 2 apart) get every single-field mutation, each both re-mined (valid PoW for the changed bytes: only the semantic rule can refuse it) and raw (stale PoW), plus: a genuine cycle below the network difficulty, a sync chunk with a wrong-prev_root header followed by its child, and header-only children of an accepted fork header built purely from the reference (accepted with their own ancestors' difficulty, refused with the main chain's). Each mutant goes through process_block_header, sync_block_headers([valid tail.., mutant]) and process_block on chains holding exactly its ancestors: expected Err, header_head/head unchanged, nothing stored; controls (other later timestamp, re-mined nonce, free scaling after HF4, reference-built fork child) expected Ok; afterwards the true remainder of the chain must be accepted on all paths. non-trivial = mutant with valid PoW; distinct by (kind, era of position, path)");
+	ev.rule("B: windows as DifficultyIter yields them (newest first, strictly increasing time, 1<=n<=min(height,70) before HF4, n>=2 after), all four chain types, every header-version era, heights at era starts/ends; result compared with a u128 reference, minimum, clamp/damping bounds, determinism, monotonicity in the newest timestamp; header_version compared with the reference schedule. non-trivial = window shorter than 61 or height within 3 of an era boundary; distinct by (chain type, era, window-length class, boundary, at-minimum, clamp-active)");
+	ev.rule("C: valid mined headers re-encoded with one field out of read-time policy (re-mined so that only that policy can refuse) must fail UntrustedBlockHeader decoding; untouched / in-policy controls decode to the same header");
+	ev.assume("blake2b (blake2-rfc) trusted; the reference retarget, version schedule and MMR are the harness's own; PoW mining uses grin's own pow_size (cuckatoo solver) and mmr sizes use the closed form 2n-popcount(n)");
+	ev.assume("a stale proof verifying against changed header bytes by chance (an 8-cycle among 8 fixed edges of a fresh 2^10 graph) is treated as impossible");
+	ev.assume("B: timestamps >= 10^9 so the pre-genesis padding never saturates at 0 (global.rs:510 saturating_sub); secondary_scaling < 2^31 so that the scaling result fits the u32 it is cast to (consensus.rs:416); random heights on AutomatedTesting/UserTesting stay below 196605 where consensus.rs:149 truncates the interval count to u16 - that wrap is covered by directed probes instead");
+
+	// coinbase universe: key = height*4+k
+	let cbs: Vec<OutRef> = (1..=40u32)
+		.flat_map(|h| (0..4u32).map(move |k| (h, k)))
+		.map(|(h, k)| OutRef {
+			amount: consensus::reward(0),
+			key: h * 4 + k,
+			cb: true,
+		})
+		.collect();
+	LIB.prefetch(&cbs);
+
+	// ---- A
+	let t0 = std::time::Instant::now();
+	let cases = ctx.n(48, 720);
+	let fl = pbt_par(ctx, "A", cases, 16, strat_a, init_thread, |c, counting| {
+		let mut at = None;
+		check_a(ctx, c, counting, &mut at)
+	});
+	if let Some(fl) = fl {
+		// narrow to the failing (kind, path) when it fails in isolation
+		let mut at = None;
+		let _ = catch(|| check_a(ctx, &fl.value, false, &mut at));
+		let mut reported = false;
+		if let Some(o) = at {
+			let mut c = fl.value.clone();
+			c.only = Some(o);
+			let mut at2 = None;
+			if let Ok(Err(f)) | Err(f) = catch(|| check_a(ctx, &c, false, &mut at2)) {
+				ctx.report("A", &f.sig, serde_json::to_value(&c).unwrap(), &f.msg);
+				reported = true;
+			}
+		}
+		if !reported {
+			ctx.report("A", &fl.fail.sig, serde_json::to_value(&fl.value).unwrap(), &fl.fail.msg);
+		}
+	}
+	ev.extra("A_wall_s", json!(t0.elapsed().as_secs_f64()));
+	ev.extra("A_reject_reasons", json!(*REASONS.lock().unwrap()));
+
+	// ---- B
+	let t0 = std::time::Instant::now();
+	let fl = pbt_par(ctx, "B", ctx.n(100_000, 1_500_000), 8, strat_b, init_thread, |c, counting| check_b(ctx, c, counting));
+	if let Some(fl) = fl {
+		ctx.report("B", &fl.fail.sig, serde_json::to_value(&fl.value).unwrap(), &fl.fail.msg);
+	}
+	global::set_local_chain_type(ChainTypes::AutomatedTesting);
+	// directed probes: the heights where the testing schedules' interval count passes 16 bits
+	for ct in [Ct::AutomatedTesting, Ct::UserTesting] {
+		let mut reported = false;
+		for h in [R_WRAP_TESTING - 1, R_WRAP_TESTING, R_WRAP_TESTING + 7, R_WRAP_TESTING + 14, R_WRAP_TESTING + 15, 2 * R_WRAP_TESTING + 3, 2 * R_WRAP_TESTING + 18] {
+			let case = CaseB {
+				chain_type: ct,
+				height: h,
+				entries: vec![
+					Entry {
+						ts: 1_600_000_060,
+						diff: 1000,
+						scaling: 0,
+						sec: false,
+					},
+					Entry {
+						ts: 1_600_000_000,
+						diff: 1000,
+						scaling: 0,
+						sec: false,
+					},
+				],
+			};
+			ev.class("B:directed_wrap_height_probes");
+			if let Ok(Err(f)) | Err(f) = catch(|| check_b(ctx, &case, true)) {
+				if !reported {
+					ctx.report("B", &f.sig, serde_json::to_value(&case).unwrap(), &f.msg);
+					reported = true;
+				}
+			}
+			global::set_local_chain_type(ChainTypes::AutomatedTesting);
+		}
+	}
+	ev.extra("B_wall_s", json!(t0.elapsed().as_secs_f64()));
+
+	// ---- C
+	let t0 = std::time::Instant::now();
+	let recipe: Vec<(u16, u8)> = (0..40u64)
+		.map(|i| {
+			let r = ctx.derive_seed("c-pool", i);
+			let dt = if i < 12 && r % 3 == 0 { 1 + (r >> 8) % 3 } else { 1 + (r >> 8) % 600 };
+			(dt as u16, (r >> 32) as u8 % 4)
+		})
+		.collect();
+	let pool: Vec<String> = match catch(|| build_chain(ctx, &recipe, "c-pool")) {
+		Ok(Ok((_cb, blocks))) => {
+			let mut v = vec![];
+			for b in &blocks {
+				v.push(hdr_hex(&b.header).map_err(|f| HarnessError(f.msg))?);
+			}
+			v
+		}
+		Ok(Err(f)) | Err(f) => {
+			ctx.report("A", &f.sig, json!({"recipe": recipe, "pos": [1], "chunk": 1, "tail": 0, "salt": 0}), &f.msg);
+			vec![]
+		}
+	};
+	if !pool.is_empty() {
+		let mk = |v: &(usize, CKind, u64, bool)| CaseC {
+			header: pool[v.0].clone(),
+			mutation: v.1,
+			param: v.2,
+			remine: v.3,
+		};
+		let fl = pbt_par(ctx, "C", ctx.n(5_000, 75_000), 16, || strat_c(pool.len()), init_thread, |v, counting| check_c(ctx, &mk(v), counting));
+		if let Some(fl) = fl {
+			ctx.report("C", &fl.fail.sig, serde_json::to_value(&mk(&fl.value)).unwrap(), &fl.fail.msg);
+		}
+	}
+	ev.extra("C_wall_s", json!(t0.elapsed().as_secs_f64()));
+	ev.extra("proofs_created", json!(LIB.proofs_created.load(std::sync::atomic::Ordering::Relaxed)));
+	for cl in ["controls_accepted", "A:chains_crossing_both_eras", "A:chains_with_wtema_above_minimum", "B:era_boundary_adjacent", "B:dma_clamp_active"] {
+		if ev.class_count(cl) == 0 {
+			eprintln!("warning: class {} is empty in this run", cl);
+		}
+	}
+	Ok(())
+}
+
+pub fn replay(ctx: &Ctx, part: &str, case: &Value) -> PResult {
+	init_global();
+	let bad = |e: serde_json::Error| Fail::new("harness:replay-parse", e.to_string());
+	match part {
+		"A" => {
+			let c: CaseA = serde_json::from_value(case.clone()).map_err(bad)?;
+			let mut at = None;
+			check_a(ctx, &c, false, &mut at)
+		}
+		"B" => {
+			let c: CaseB = serde_json::from_value(case.clone()).map_err(bad)?;
+			let r = check_b(ctx, &c, false);
+			global::set_local_chain_type(ChainTypes::AutomatedTesting);
+			r
+		}
+		"C" => {
+			let c: CaseC = serde_json::from_value(case.clone()).map_err(bad)?;
+			check_c(ctx, &c, false)
+		}
+		_ => Ok(()),
+	}
 }
